@@ -133,4 +133,92 @@ theorem trimSpace_digits (ds : Bytes) (hd : ds.all isDigit = true) : trimSpace d
   unfold trimSpace
   rw [dw ds hns, dw ds.reverse (fun c hc => hns c (List.mem_reverse.mp hc)), List.reverse_reverse]
 
+/-- the digit run found by `spanDigits` consists of digits, and the input is the run followed by the rest -/
+theorem spanDigits_spec : ∀ (s : Bytes), (spanDigits s).1.all isDigit = true ∧ (spanDigits s).1 ++ (spanDigits s).2 = s := by
+  intro s
+  induction s with
+  | nil => simp [spanDigits]
+  | cons c r ih =>
+    by_cases h : isDigit c = true
+    · simp [spanDigits, h, ih.1, ih.2]
+    · simp [spanDigits, h]
+
+theorem all_drop {α : Type} (p : α → Bool) (l : List α) (n : Nat) (h : l.all p = true) : (l.drop n).all p = true := by
+  rw [List.all_eq_true] at h ⊢
+  intro x hx
+  exact h x (List.mem_of_mem_drop hx)
+
+/-- whatever `parseTrack2` accepts has an account number of 1..19 digits -/
+theorem parseTrack2_pan {v : Bytes} {t : T2} (h : parseTrack2 v = some t) :
+    t.pan.all isDigit = true ∧ 1 ≤ t.pan.length ∧ t.pan.length ≤ 19 := by
+  unfold parseTrack2 at h
+  have hs := spanDigits_spec v
+  revert h
+  generalize spanDigits v = sp at hs
+  obtain ⟨pan, r1⟩ := sp
+  simp only []
+  intro h
+  split at h
+  · cases h
+  · rename_i hlen
+    have hlen' : 1 ≤ pan.length ∧ pan.length ≤ 19 := by
+      simp only [Bool.or_eq_true, decide_eq_true_eq, not_or] at hlen; omega
+    split at h
+    · split at h
+      · split at h
+        · split at h
+          · simp only [Option.some.injEq] at h; subst h; exact ⟨hs.1, hlen'⟩
+          · cases h
+        · cases h
+      · cases h
+    · cases h
+
+theorem parseTrack3_pan {v : Bytes} {t : T3} (h : parseTrack3 v = some t) :
+    t.pan.all isDigit = true ∧ 1 ≤ t.pan.length ∧ t.pan.length ≤ 19 := by
+  unfold parseTrack3 at h
+  have hs := spanDigits_spec v
+  revert h
+  generalize spanDigits v = sp at hs
+  obtain ⟨ds, r1⟩ := sp
+  simp only []
+  intro h
+  split at h
+  · cases h
+  · rename_i hlen
+    have hlen' : 3 ≤ ds.length ∧ ds.length ≤ 21 := by
+      simp only [Bool.or_eq_true, decide_eq_true_eq, not_or] at hlen; omega
+    split at h
+    · split at h
+      · cases h
+      · split at h
+        · cases h
+        · simp only [Option.some.injEq] at h; subst h
+          refine ⟨all_drop _ _ _ hs.1, ?_, ?_⟩ <;> simp only [List.length_drop] <;> omega
+    · cases h
+
+theorem parseTrack1_pan {v : Bytes} {t : T1} (h : parseTrack1 v = some t) :
+    t.pan.all isDigit = true ∧ 1 ≤ t.pan.length ∧ t.pan.length ≤ 19 := by
+  unfold parseTrack1 at h
+  split at h
+  · rename_i fc r0
+    split at h
+    · cases h
+    · have hs := spanDigits_spec r0
+      revert h
+      generalize spanDigits r0 = sp at hs
+      obtain ⟨pan, r1⟩ := sp
+      generalize hsn : spanNotCaret = snc
+      simp only []
+      intro h
+      split at h
+      · cases h
+      · rename_i hlen
+        have hlen' : 1 ≤ pan.length ∧ pan.length ≤ 19 := by
+          simp only [Bool.or_eq_true, decide_eq_true_eq, not_or] at hlen; omega
+        repeat' split at h
+        all_goals first
+          | (cases h; done)
+          | (simp only [Option.some.injEq] at h; subst h; exact ⟨hs.1, hlen'⟩)
+  · cases h
+
 end Iso8583.Describe
